@@ -918,7 +918,10 @@ class Geometry(SupportsCoords[float]):
         return {"geom": self.json, "crs": self.crs}
 
     def __setstate__(self, state):
-        self.__init__(**state)
+        # rebuild exactly what `.json` reported: going through ``Geometry(dict)`` drops Z
+        # and rejects geometry collections
+        self.geom = geometry.shape(state["geom"])
+        self.crs = norm_crs(state["crs"])
 
     @property
     def is_multi(self) -> bool:
